@@ -166,12 +166,14 @@ zone. -/
 def storageFindLoose (cs : List PClient) (ls : Leases) (id : QID) : Option PClient :=
   (storageFind cs ls id).orElse fun _ =>
     match id with
-    | .ip a => byIPZoned cs a
+    -- QUIRK: when the address has a DHCP lease, the result of the MAC lookup is
+    -- final (`return s.FindByMAC(foundMAC)`), found or not
+    | .ip a => if (macByIP ls a).isSome then none else byIPZoned cs a
     | .cid _ => none
 
-/-- `clientsContainer.shouldCountClient(ids)`.  `loose = false` is the code as it
-is (`Storage.Find`); `loose = true` the prepared repair
-(fixes/c08/zoned_client_stats.patch: `FindLoose`, like the query log). -/
+/-- `clientsContainer.shouldCountClient(ids)`.  `loose = true` is the code as it
+is (`Storage.FindLoose`, like the query log; repair c47dc1e); `loose = false` the
+code before it (`Storage.Find`), kept for scratch trees and the counterexample. -/
 def shouldCountClient (loose : Bool) (cs : List PClient) (ls : Leases) : List QID → Bool
   | [] => true
   | id :: rest =>
@@ -192,6 +194,22 @@ def findMultiple (cs : List PClient) (ls : Leases) : List QID → Option Bool
 
 /-! ## Configuration and stores -/
 
+/-- The disallowed clients of the access settings (`newAccessCtx(nil, blocked, nil)`):
+exact addresses, CIDRs in list order, ClientIDs. -/
+structure Access where
+  ips : List Bytes := []
+  nets : List Prefix := []
+  cids : List Bytes := []
+  deriving Repr
+
+/-- One runtime client record (`client.Runtime`), as far as the finders read it:
+rDNS host name and WHOIS organisation (empty = none). -/
+structure RT where
+  ip : Bytes
+  host : Bytes
+  org : Bytes
+  deriving DecidableEq, Repr
+
 structure Conf where
   anon : Bool
   refuseAny : Bool
@@ -201,8 +219,10 @@ structure Conf where
   ignS : List Bytes
   clients : List PClient
   leases : Leases
-  /-- the tree carries fixes/c08/zoned_client_stats.patch -/
-  fixZone : Bool := false
+  /-- the tree carries the zoned-client repair (c47dc1e); false only for scratch trees -/
+  fixZone : Bool := true
+  /-- access settings: the disallowed clients (blocklist mode) -/
+  access : Access := {}
   deriving Repr
 
 /-- One query-log record: normalized name, canonical stored address, ClientID. -/
@@ -234,6 +254,8 @@ structure State where
   dDomains : List (Bytes × Nat) := []
   /-- querylog.json.1 exists (the harness drives `rotate` once per history) -/
   rotated : Bool := false
+  /-- the runtime client index -/
+  runtime : List RT := []
   deriving Repr
 
 structure Query where
@@ -312,6 +334,92 @@ records, that are kept, newest first. -/
 def search (s : State) : List Entry :=
   ((s.mem.reverse.filter (keeps s.conf)) ++ (s.file.reverse.filter (keeps s.conf))).map (report s.conf)
 
+/-! ## The client information of the log API (`client_info`) -/
+
+/-- A string of the answer that may be an address. -/
+inductive RuleRef where
+  | ip (a : Bytes)
+  | net (a : Bytes) (bits : Nat)
+  | str (s : Bytes)
+  deriving DecidableEq, Repr
+
+/-- `querylog.Client` as marshalled: name, whois.orgname, disallowed, disallowed_rule. -/
+structure Info where
+  name : Bytes
+  org : Bytes
+  disallowed : Bool
+  rule : RuleRef
+  deriving DecidableEq, Repr
+
+/-- `(*Server).IsBlockedClient(ip, id)` in blocklist mode, as `clientOrArtificial`
+calls it: `ip` is the parsed id (zero for a ClientID), the ClientID argument is
+the id STRING itself.  QUIRK: the rule is `cmp.Or(rule, id)`, i.e. the id string
+when nothing matched. -/
+def isBlocked (acc : Access) : QID → Bool × RuleRef
+  | .ip a =>
+    if acc.ips.contains a then (true, .ip a)
+    else match acc.nets.find? (·.contains a) with
+      | some p => (true, .net p.addr p.bits)
+      | none => (false, .ip a)
+  | .cid c => (c != [] && acc.cids.contains c, .str c)
+
+def rtFind (rt : List RT) (a : Bytes) : Option RT := rt.find? (·.ip == a)
+
+/-- `clientOrArtificial(ip, id)`: the information, whether it is artificial, and
+the persistent client's `IgnoreQueryLog`. -/
+def clientFull (c : Conf) (rt : List RT) (id : QID) : Info × Bool × Bool :=
+  let b := isBlocked c.access id
+  match storageFindLoose c.clients c.leases id with
+  | some p => ({ name := p.name, org := [], disallowed := b.1, rule := b.2 }, false, p.ignLog)
+  | none =>
+    match (match id with | .ip a => rtFind rt a | .cid _ => none) with
+    | some r => ({ name := r.host, org := r.org, disallowed := b.1, rule := b.2 }, false, false)
+    | none => ({ name := [], org := [], disallowed := b.1, rule := b.2 }, true, false)
+
+/-- `findMultiple(ids)` in full: the first non-artificial record, else the last
+artificial one; with the ignore flag `ShouldLog` and the search read. -/
+def findFull (c : Conf) (rt : List RT) : List QID → Option (Info × Bool)
+  | [] => none
+  | id :: rest =>
+    let r := clientFull c rt id
+    if r.2.1 then
+      match findFull c rt rest with
+      | some x => some x
+      | none => some (r.1, false)
+    else some (r.1, r.2.2)
+
+def entryIDs (e : Entry) : List QID := (if e.cid ≠ [] then [QID.cid e.cid] else []) ++ [QID.ip e.ip]
+
+/-- One record of the log API's answer. -/
+structure Reported where
+  entry : Entry
+  /-- `client_info`, when included -/
+  info : Option Info
+  /-- the raw JSON mentions an un-anonymised peer address of the history (observed only) -/
+  leak : Bool := false
+  deriving DecidableEq, Repr
+
+/-- `entryToJSON`: `client` is the stored address passed through the current
+anonymizer; `client_info` is included iff that did not change the address. -/
+def reportFull (s : State) (e : Entry) : Reported :=
+  { entry := report s.conf e,
+    info := if canon (ipMut s.conf.anon e.ip) == e.ip then (findFull s.conf s.runtime (entryIDs e)).map (·.1)
+            else none }
+
+def searchFull (s : State) : List Reported :=
+  ((s.mem.reverse.filter (keeps s.conf)) ++ (s.file.reverse.filter (keeps s.conf))).map (reportFull s)
+
+/-- `Storage.UpdateAddress(ip, host, whois)`: the rDNS name is set when given;
+the WHOIS data only when no persistent client is found by the address. -/
+def updateAddress (cs : List PClient) (rt : List RT) (a host org : Bytes) : List RT :=
+  let orgOK := org != [] && (findByIP cs a).isNone
+  if !(host != [] || orgOK) then rt
+  else match rtFind rt a with
+    | some _ =>
+      rt.map fun r => if r.ip == a then
+        { r with host := if host != [] then host else r.host, org := if orgOK then org else r.org } else r
+    | none => rt ++ [{ ip := a, host := host, org := if orgOK then org else [] }]
+
 /-! ## Configuration operations -/
 
 /-- A persistent client as configured: typed identifiers. -/
@@ -361,14 +469,15 @@ structure ResetArgs where
   ignS : List Bytes
   clients : List ClientObj
   leases : Leases
-  fixZone : Bool := false
+  fixZone : Bool := true
+  access : Access := {}
   deriving Repr
 
 def reset (a : ResetArgs) : Option State :=
   (addAll [] (a.clients.map ClientObj.toPersistent)).map fun cs =>
     { conf := { anon := a.anon, refuseAny := a.refuseAny, qlogOn := a.qlogOn, statsOn := a.statsOn,
                 ignQ := a.ignQ, ignS := a.ignS, clients := cs, leases := a.leases,
-                fixZone := a.fixZone },
+                fixZone := a.fixZone, access := a.access },
       mem := [], file := [], sClients := [], sDomains := [] }
 
 /-- `Storage.Update` with the same identifiers and new flags: the client is
@@ -378,6 +487,26 @@ def setFlags (cs : List PClient) (name : Bytes) (lg st : Bool) : Option (List PC
   match cs.find? (·.name == name) with
   | none => none
   | some p => some (cs.filter (·.name != name) ++ [{ p with ignLog := lg, ignStat := st }])
+
+/-- One more identifier for a client (`SetIDs`). -/
+def PClient.addID (p : PClient) : CID → PClient
+  | .ip a => { p with ips := p.ips ++ [a] }
+  | .net a b => { p with nets := p.nets ++ [⟨a, b⟩] }
+  | .mac m => { p with macs := p.macs ++ [m] }
+  | .cid c => { p with cids := p.cids ++ [lower c] }
+  | .zip a z => { p with zips := p.zips ++ [(a, z)] }
+
+/-- `Storage.Update(name, p')` where `p'` is the stored client with one more
+identifier: `none` = no such client; `some none` = rejected because the
+identifier belongs to another client (the storage must stay as it was);
+`some (some cs)` = done. -/
+def editClient (cs : List PClient) (name : Bytes) (id : CID) : Option (Option (List PClient)) :=
+  match cs.find? (·.name == name) with
+  | none => none
+  | some p =>
+    let others := cs.filter (·.name != name)
+    let p' := p.addID id
+    if clashes others p' then some none else some (some (others ++ [p']))
 
 def rmClient (cs : List PClient) (name : Bytes) : Option (List PClient) :=
   if cs.any (·.name == name) then some (cs.filter (·.name != name)) else none
@@ -391,6 +520,8 @@ inductive Op where
   | statsConf (enabled : Bool) (ignored : List Bytes)
   | setFlags (name : Bytes) (lg st : Bool)
   | rmClient (name : Bytes)
+  /-- an edit of a client that adds an identifier (rejected when it clashes) -/
+  | edit (name : Bytes) (id : CID)
   | search
   | stats
   /-- the unit-id clock moves on one hour and `(*StatsCtx).flush` runs -/
@@ -399,15 +530,18 @@ inductive Op where
   | restart
   /-- `(*queryLog).rotate`, driven at most once per history -/
   | rotate
+  /-- `clients.UpdateAddress(ip, host, whois)`: a runtime record from rDNS / WHOIS -/
+  | runtime (a host org : Bytes)
   deriving Repr
 
 /-- What an operation shows. -/
 inductive Out where
   | ok
   | noClient
+  | clash
   | stores (mem : List Entry) (sClients : List (Key × Nat)) (sDomains : List (Bytes × Nat))
   | flushed (mem file : List Entry)
-  | found (r : List Entry)
+  | found (r : List Reported)
   | report (sClients : List (Key × Nat)) (sDomains : List (Bytes × Nat))
   /-- raw stats.db tables (all buckets), then the current unit -/
   | ticked (kc : List (Key × Nat)) (kd : List (Bytes × Nat))
@@ -459,7 +593,14 @@ def step (s : State) : Op → State × Out
     match rmClient s.conf.clients n with
     | some cs => ({ s with conf := { s.conf with clients := cs } }, .ok)
     | none => (s, .noClient)
-  | .search => (s, .found (search s))
+  | .edit n id =>
+    match editClient s.conf.clients n id with
+    | some (some cs) => ({ s with conf := { s.conf with clients := cs } }, .ok)
+    | some none => (s, .clash)
+    | none => (s, .noClient)
+  | .search => (s, .found (searchFull s))
+  | .runtime a host org =>
+    ({ s with runtime := updateAddress s.conf.clients s.runtime a host org }, .ok)
   | .stats => (s, statsReport s)
   | .tick =>
     let s' := tick s
@@ -467,7 +608,7 @@ def step (s : State) : Op → State × Out
   | .restart =>
     -- Shutdown flushes the buffer; Close stores the current unit in its bucket,
     -- New loads it again; configuration and clients come back from the config file.
-    let s' := flush s
+    let s' := { flush s with runtime := [] }
     (s', .restarted s'.mem s'.file (s'.dClients ++ s'.sClients) (s'.dDomains ++ s'.sDomains)
       s'.sClients s'.sDomains)
   | .rotate =>
